@@ -3,6 +3,7 @@ package annotations
 import (
 	"go/ast"
 	"go/token"
+	"go/types"
 	"regexp"
 	"strings"
 
@@ -539,7 +540,13 @@ func ReadAllAnnotations(
 		// Build import map for this file
 		imports := &util.ImportMap{}
 		for _, imp := range file.Imports {
-			imports.Add(imp, pass.Pkg)
+			// The package an import spec refers to (not the package being analysed):
+			// its declared name is what an annotation may use as qualifier
+			var imported *types.Package
+			if pkgName := pass.TypesInfo.PkgNameOf(imp); pkgName != nil {
+				imported = pkgName.Imported()
+			}
+			imports.Add(imp, imported)
 		}
 
 		for _, n := range file.Decls {
